@@ -3,6 +3,12 @@
 import json, subprocess, collections
 
 CLAIMS = {
+ "C18": dict(
+   text="For every arity 0-12 and every position, on the typed AST and SSA of the generated code: type parameter j, field idj, compiled.Ids[j] and the j-th pointer argument are paired consistently at every cast, literal and Component pair (the unsafe casts hide any mix-up from the compiler), the method sets of the arities are identical modulo per-position lines, every configuration change of a filter invalidates its compilation and refuses registered filters, filters compile before use, Compile publishes only sub-filters rebuilt on that path, Exchange keeps builder and relation consistent. About 1300 obligations, all positions of all arities, not the sampled ones a test touches.",
+   note="Decides pairing and invalidation structure, not equality of effects with the ID-based calls. Unknown uses of idk fields are reported as undecided rather than passed. Trusted: go/types, go/ssa; the generator template is covered through its output.",
+   technique="static analysis: typed-AST positional rules over all arities, cross-arity normalisation and majority comparison, must-pass dataflow on go/ssa",
+   ref="§2 C18"),
+
  "C04": dict(
    text="The one property that is almost entirely shape, decided exactly for its mask part: on the typed AST of both builds every mask operation is shown to treat all words uniformly and to cover each word once, and its per-word expression is constant-folded to a one-bit truth table (plus quantifier) that must equal the set operation of the specification; Get/Set addressing is matched against the accepted forms for the word width; every filter's Matches is evaluated as a truth table over its atoms against its definition. Because Go's bitwise operators act bit-parallel, the one-bit table decides all 2^256 masks, which no test can enumerate.",
    note="Trusted: go/types for constants and callee resolution; the recognisers for the accepted source forms (anything else is reported as undecided, not passed). Nested logic filters follow compositionally from the per-node tables.",
